@@ -100,8 +100,8 @@ for i in range(7):
     PROFILE["r0.Weekdays[%d]" % ((i + 1) % 7)] = "reply@%d" % (17 + i)
 for i in (1, 2, 3):
     s, e = 24 + 4 * (i - 1), 26 + 4 * (i - 1)
-    PROFILE["r0.Segments[%d].Start" % i] = "reply@%d==nil ? zero : reply@%d" % (s, s)
-    PROFILE["r0.Segments[%d].End" % i] = "reply@%d==nil ? zero : reply@%d" % (e, e)
+    PROFILE["r0.Segments[%d].Start" % i] = "reply@%d==nil ? zero : *reply@%d" % (s, s)
+    PROFILE["r0.Segments[%d].End" % i] = "reply@%d==nil ? zero : *reply@%d" % (e, e)
 op("GetTimeProfile", 0x98, req((8, "arg1")),
    reply=[{"when": "reply@8!=0 && reply@8 != arg1", "error": True}, {"when": "reply@8==0", "result": NIL}, {"when": "true", "result": PROFILE}],
    map_entries=["r0.Segments[1]", "r0.Segments[2]", "r0.Segments[3]"])
